@@ -255,7 +255,17 @@ def compare_world(rec, mjm, cw, cm, xpos, xmat, world, multiccd=True, nativeccd=
       degenerate |= np.linalg.norm(np.cross(npl, acy)) < 1e-3
     if degenerate:
       rec.boundary_skipped += 1
+    dup_m = set()
+    if set(tkey) == {"capsule", "box"} and len(sub_m["dist"]) == 2 and float(np.linalg.norm(np.asarray(sub_m["pos"][0]) - np.asarray(sub_m["pos"][1]))) < 1e-4:
+      # MuJoCo's capsule-box routine sometimes returns the deepest point twice instead of a second contact (thorough tier: both of its contacts at the same
+      # position, MJWarp's second contact is the capsule's other end sphere at its true depth): only the deepest contact is compared with such a duplicate
+      jdeep = int(np.argmin(sub_w["dist"]))
+      dup_m = {a for a, b in match if a != jdeep}
+      rec.boundary_skipped += 1
+      rec.notes["mujoco_capsule_box_duplicate_contact"] += 1
     for a, b in match:
+      if a in dup_m:
+        continue
       check_equal(rec, "contact.dim", sub_w["dim"][a], sub_m["dim"][b], sig="param:dim", **info)
       for f in ("friction", "solref", "solreffriction", "solimp", "includemargin"):
         check_close(rec, f"contact.{f}", sub_w[f][a], sub_m[f][b], 1e-5, sig=f"param:{f}", **info)
